@@ -200,4 +200,8 @@ func (pxy *HTTPProxy) Close() {
 	for _, closeFn := range pxy.closeFuncs {
 		closeFn()
 	}
+	// Don't keep idle connections to the backend of a closed proxy.
+	if pxy.rc.HTTPReverseProxy != nil {
+		pxy.rc.HTTPReverseProxy.CloseIdleConnections()
+	}
 }
